@@ -25,7 +25,7 @@ def showSrc : Src → String
 
 def showKind : Kind → String
   | .choice => "choice" | .permutation => "permutation" | .random => "random" | .normal => "normal"
-  | .gamma => "gamma" | .newgen => "newgen" | .torch => "torch"
+  | .gamma => "gamma" | .newgen => "newgen" | .torch => "torch" | .integers => "integers"
 
 def showTrace (es : List Event) : String :=
   if es.isEmpty then "-" else ",".intercalate (es.map (fun e => s!"{showSrc e.src}.{showKind e.kind}"))
@@ -40,7 +40,7 @@ def opNames : List (String × Op) :=
    ("sampleVI", .sampleVI), ("cliPrepareRetrospective", .cliPrepareRetrospective),
    ("cliCalculateScores", .cliCalculateScores), ("cliSelectNextPlate", .cliSelectNextPlate),
    ("cliTrainModel", .cliTrainModel), ("cliTrainModelVI", .cliTrainModelVI),
-   ("cliEvaluateModel", .cliEvaluateModel)]
+   ("cliEvaluateModel", .cliEvaluateModel), ("cliAnalyzeModelEvaluation", .cliAnalyzeModelEvaluation)]
 
 def parseBits? (s : String) : Option (List Bool) :=
   if s == "-" then some [] else s.toList.mapM (fun c => if c == '1' then some true else if c == '0' then some false else none)
